@@ -13,12 +13,15 @@ import Driver.Tr
 import Driver.Tr19
 import Driver.E2e
 import Driver.Cand
+import Driver.Sys
 open Driver
 
 def dispatch (line : String) : Verdict :=
   let toks := splitTokens line
   let (l, r) := splitBar toks
   match l with
+  | "C02" :: "sys" :: args => c01sys args r
+  | "C12" :: "sys" :: args => c01sys args r
   | "C02" :: "hist" :: args => c02hist args r
   | "C02" :: "cand" :: args => c02cand args r
   | "C02" :: args => c02 args r
@@ -41,6 +44,7 @@ def dispatch (line : String) : Verdict :=
   | "C09" :: args => handVerdict "C09" args r
   | "C10" :: args => handVerdict "C10" args r
   | "C11" :: args => handVerdict "C11" args r
+  | "C01" :: "sys" :: args => c01sys args r
   | "C01" :: "e2e" :: rest => c02 ("e2e" :: rest) r
   | "C01" :: args => handVerdict "C01" args r
   | "C13" :: "hist" :: args => c13hist ("hist" :: args) r
